@@ -49,6 +49,60 @@ func runStress(seed int64) Result {
 		}
 	}
 	var mu sync.Mutex
+	// COLD START: the very first Unmarshal / Marshal / Resolve / For of this process happen concurrently (whatever
+	// the package builds lazily on first use - field-name tables, struct caches, meta-schema data - is then built
+	// while other goroutines already read it). Nothing before this line has touched a Schema.
+	{
+		const coldDoc = `{"type":"object","properties":{"a":{"type":"integer","minimum":1},"b":{"enum":[1,"x",null]}},"required":["a"],"x-vendor":{"k":[1,2]},"$defs":{"d":{"not":{}}}}`
+		outs := make([]string, G)
+		errs := make([]string, G)
+		var wgc sync.WaitGroup
+		start := make(chan struct{})
+		for g := 0; g < G; g++ {
+			wgc.Add(1)
+			go func(g int) {
+				defer wgc.Done()
+				<-start
+				var sch jsonschema.Schema
+				if err := json.Unmarshal([]byte(coldDoc), &sch); err != nil {
+					errs[g] = "unmarshal: " + err.Error()
+					return
+				}
+				b, err := json.Marshal(&sch)
+				if err != nil {
+					errs[g] = "marshal: " + err.Error()
+					return
+				}
+				rsv, err := sch.Resolve(nil)
+				if err != nil {
+					errs[g] = "resolve: " + err.Error()
+					return
+				}
+				v1 := rsv.Validate(map[string]any{"a": 1.0, "b": "x"}) == nil
+				v2 := rsv.Validate(map[string]any{"a": 0.0}) == nil
+				fs, err := jsonschema.For[stressT](nil)
+				fb, _ := json.Marshal(fs)
+				outs[g] = fmt.Sprintf("%s|%v|%v|%s|%v", b, v1, v2, fb, err)
+			}(g)
+		}
+		close(start)
+		wgc.Wait()
+		// the sequential result, computed now that the caches are warm
+		var sch jsonschema.Schema
+		json.Unmarshal([]byte(coldDoc), &sch)
+		b, _ := json.Marshal(&sch)
+		rsv, _ := sch.Resolve(nil)
+		fs, ferr := jsonschema.For[stressT](nil)
+		fb, _ := json.Marshal(fs)
+		want := fmt.Sprintf("%s|%v|%v|%s|%v", b, rsv.Validate(map[string]any{"a": 1.0, "b": "x"}) == nil, rsv.Validate(map[string]any{"a": 0.0}) == nil, fb, ferr)
+		for g := 0; g < G; g++ {
+			res.Evaluations += 5
+			if errs[g] != "" || outs[g] != want {
+				addFail("concurrent-cold-start", "first Unmarshal/Marshal/Resolve/Validate/For of the process, from 8 goroutines at once", want, errs[g]+outs[g])
+			}
+		}
+		res.Cases++
+	}
 	for _, sc := range concScenarios {
 		rs, root := concResolved(sc)
 		insts := []string{sc.I1, sc.I2}
